@@ -161,7 +161,7 @@ static void part_fpflow(const std::vector<unsigned>& ns) {
         const double e1 = ie == 0 ? 0.1 : 0.2;
         FokkerPlanckMap m(in, out, n, n, FokkerPlanckMap::FPType::damping_only, FokkerPlanckMap::FPTracking::stochastic, e1, FokkerPlanckMap::DerivationType::cubic, nullptr);
         m._prng.seed(4711 + n + ie); m._normdist.reset();
-        const double zb = in->getAxis(1)->zerobin(), sig = 2.5; const unsigned c0 = n / 2, NP = 4096;
+        const double zb = in->getAxis(1)->zerobin(), sig = 2.5; const unsigned c0 = n / 2, NP = 65536;
         double worst = 0;
         for (unsigned yc = 9; yc + 9 < n; yc += 4) {
             float* din = in->getData(); std::fill(din, din + (size_t)n * n, 0.f);
@@ -171,7 +171,8 @@ static void part_fpflow(const std::vector<unsigned>& ns) {
             m.apply(); m.applyToAll(en);
             const float* o = out->getData(); double q1 = 0, m1 = 0; for (unsigned y = 0; y < n; y++) { q1 += o[(size_t)c0 * n + y]; m1 += (double)o[(size_t)c0 * n + y] * y; }
             double mu = 0, var = 0; for (auto& p : en) mu += p.y; mu /= NP; for (auto& p : en) var += (p.y - mu) * (p.y - mu); var /= NP;
-            const double dc = m1 / q1 - m0 / q0, dp = mu - yc, tol = 5 * std::sqrt(var / NP) + 0.1 * e1 * std::fabs(yc - zb) + 0.01;
+            const double dc = m1 / q1 - m0 / q0, dp = mu - yc, tol = 5 * std::sqrt(var / NP) + 0.03 * e1 * std::fabs(yc - zb) + 0.01;
+            R.maxnum("worst_fpflow_stochastic_abs_difference_cells", std::fabs(dp - dc));
             R.eval(kase + " row=" + std::to_string(yc), mcx::fnv(&dp, 8, mcx::fnvs(kase) + yc), false);
             worst = std::max(worst, std::fabs(dp - dc) / tol);
             if (!(std::fabs(dp - dc) <= tol)) {
